@@ -95,6 +95,73 @@ func excluded(sig string) bool {
 	}
 }
 
+// reqWorkload reads the workload reference of a request object.
+func reqWorkload(obj J, version string) (wl [3]string, present bool) {
+	m := wlRef(obj, version)
+	if m == nil {
+		return wl, false
+	}
+	wl[0], _ = asStr(m["apiVersion"])
+	wl[1], _ = asStr(m["kind"])
+	wl[2], _ = asStr(m["name"])
+	return wl, true
+}
+
+// knownClass says whether a request falls into the input class of a listed finding. Every class is
+// a structural predicate over the request and the store (documented in findings/README of this
+// package); the first matching class wins.
+func (w *world) knownClass(a Action) string {
+	if a.Kind != "create" && a.Kind != "update" {
+		return ""
+	}
+	obj := parseTree(a.Obj)
+	wl, hasWL := reqWorkload(obj, a.Version)
+	// K1: another Rollout of the namespace references the same workload (group, kind, name) with a
+	// different version segment in apiVersion.
+	if hasWL {
+		for _, o := range w.st.inNamespace(a.NS) {
+			ov := readView(o.Tree)
+			if o.Name != a.Name && ov.WL != wl && workloadIdentity(a.NS, ov.WL) == workloadIdentity(a.NS, wl) {
+				return "two-rollouts-one-workload-apiversion-spelling"
+			}
+		}
+	}
+	var target view
+	hasTarget := false
+	if st := w.st.find(a.NS, a.Name); st != nil && a.Kind == "update" {
+		target, hasTarget = readView(st.Tree), true
+	}
+	progressing := hasTarget && (target.Phase == "Progressing" || target.Phase == "Terminating")
+	if a.Version == vAlpha {
+		canary := asMap(dig(obj, "spec", "strategy", "canary"))
+		style, _ := asStr(dig(obj, "metadata", "annotations", styleAnn))
+		// K3: v1alpha1 request with a canary block, without objectRef.workloadRef, and a rolling-style
+		// annotation that is absent, empty or "canary" (any letter case).
+		if canary != nil && !hasWL && (style == "" || strings.EqualFold(style, "canary")) {
+			return "handle-panic-validating.GetContextFromv1alpha1Rollout"
+		}
+		// K4: v1alpha1 request naming the workload of another, blue-green Rollout of the namespace.
+		if hasWL {
+			for _, o := range w.st.inNamespace(a.NS) {
+				if ov := readView(o.Tree); o.Name != a.Name && ov.WL == wl && ov.Style == "bluegreen" {
+					return "v1alpha1-conflict-check-blind-to-bluegreen"
+				}
+			}
+		}
+		// K5: v1alpha1 UPDATE of a blue-green Rollout in Progressing/Terminating (whatever is accepted
+		// is stored as a canary strategy, and the status is dropped).
+		if progressing && target.Style == "bluegreen" {
+			return "v1alpha1-update-of-bluegreen-unguarded"
+		}
+		// K2: v1alpha1 UPDATE of a canary/partition Rollout in Progressing/Terminating with another
+		// number of steps.
+		if progressing && target.Style != "bluegreen" && canary != nil && len(asList(canary["steps"])) != target.NSteps {
+			return "v1alpha1-progressing-step-count-changed"
+		}
+	}
+	return ""
+}
+
 // ---------- the world ----------
 
 type world struct {
@@ -253,7 +320,14 @@ func (w *world) exec1(a Action) (out outcome) {
 		return // storage answers AlreadyExists after admission; nothing is stored
 	}
 	if a.Kind == "update" {
-		w.checkImmutable(a, readView(oldStorage), v)
+		// "a change" is a difference between the object the user was shown (oldObject, in the request
+		// version) and the one submitted, both read in storage form: what a lossy conversion does to
+		// an unchanged field (e.g. gracePeriodSeconds 0 -> default 3 through v1alpha1) is C20's matter.
+		shown := readView(oldStorage)
+		if a.Version == vAlpha {
+			shown = readView(toStorage(viewAs(oldStorage, vAlpha), vAlpha))
+		}
+		w.checkImmutable(a, readView(oldStorage), shown, v)
 		existing.Tree = newStorage
 	} else {
 		w.st.objs = append(w.st.objs, &stored{NS: a.NS, Name: a.Name, Tree: newStorage})
@@ -293,7 +367,9 @@ func setPhase(t J, phase string) {
 // ---------- oracles on an accepted object (restated from the property statement) ----------
 
 func (w *world) checkStructure(a Action, v view, storage J) {
-	desc := func() string { return fmt.Sprintf("%s %s %s/%s stored as %s", a.Kind, a.Version, a.NS, a.Name, mustJSON(storage["spec"])) }
+	desc := func() string {
+		return fmt.Sprintf("%s %s %s/%s stored as %s", a.Kind, a.Version, a.NS, a.Name, mustJSON(storage["spec"]))
+	}
 	if v.Style == "none" {
 		w.fail("accepted-without-strategy", "accepted a Rollout with neither canary nor blueGreen: %s", desc())
 	}
@@ -327,32 +403,34 @@ func (w *world) checkStructure(a Action, v view, storage J) {
 	}
 }
 
-func (w *world) checkImmutable(a Action, before, after view) {
-	if before.Phase != "Progressing" && before.Phase != "Terminating" {
+func (w *world) checkImmutable(a Action, stored, before, after view) {
+	if stored.Phase != "Progressing" && stored.Phase != "Terminating" {
 		return
 	}
 	pfx := ""
 	if a.Version == vAlpha {
 		pfx = "v1alpha1-"
-		if before.Style == "bluegreen" {
-			if before.WL != after.WL || before.TR != after.TR || before.Style != after.Style || before.NSteps != after.NSteps {
+		if stored.Style == "bluegreen" {
+			// the v1alpha1 rendering of a blue-green Rollout is empty (no spec, no status)
+			if stored.WL != after.WL || stored.TR != after.TR || stored.Style != after.Style || stored.NSteps != after.NSteps {
 				w.fail("v1alpha1-update-of-bluegreen-unguarded", "phase %s blue-green Rollout %s/%s: a v1alpha1 UPDATE was accepted that changed workloadRef %v->%v, trafficRouting %q->%q, style %s->%s, steps %d->%d",
-					before.Phase, a.NS, a.Name, before.WL, after.WL, before.TR, after.TR, before.Style, after.Style, before.NSteps, after.NSteps)
+					stored.Phase, a.NS, a.Name, stored.WL, after.WL, stored.TR, after.TR, stored.Style, after.Style, stored.NSteps, after.NSteps)
 			}
 			return
 		}
 	}
+	ph := stored.Phase
 	if before.WL != after.WL {
-		w.fail(pfx+"progressing-workloadref-changed", "phase %s: accepted UPDATE of %s/%s changes workloadRef %v -> %v", before.Phase, a.NS, a.Name, before.WL, after.WL)
+		w.fail(pfx+"progressing-workloadref-changed", "phase %s: accepted UPDATE of %s/%s changes workloadRef %v -> %v", ph, a.NS, a.Name, before.WL, after.WL)
 	}
 	if before.TR != after.TR {
-		w.fail(pfx+"progressing-traffic-routing-changed", "phase %s: accepted UPDATE of %s/%s changes traffic routing %q -> %q", before.Phase, a.NS, a.Name, before.TR, after.TR)
+		w.fail(pfx+"progressing-traffic-routing-changed", "phase %s: accepted UPDATE of %s/%s changes traffic routing %q -> %q", ph, a.NS, a.Name, before.TR, after.TR)
 	}
 	if before.Style != after.Style {
-		w.fail(pfx+"progressing-style-changed", "phase %s: accepted UPDATE of %s/%s changes style %s -> %s", before.Phase, a.NS, a.Name, before.Style, after.Style)
+		w.fail(pfx+"progressing-style-changed", "phase %s: accepted UPDATE of %s/%s changes style %s -> %s", ph, a.NS, a.Name, before.Style, after.Style)
 	}
 	if before.NSteps != after.NSteps {
-		w.fail(pfx+"progressing-step-count-changed", "phase %s: accepted UPDATE of %s/%s changes the number of steps %d -> %d", before.Phase, a.NS, a.Name, before.NSteps, after.NSteps)
+		w.fail(pfx+"progressing-step-count-changed", "phase %s: accepted UPDATE of %s/%s changes the number of steps %d -> %d", ph, a.NS, a.Name, before.NSteps, after.NSteps)
 	}
 }
 
@@ -528,7 +606,14 @@ func (w *world) genAction(t *rapid.T, alphaShare int) (Action, *G) {
 		obj := g.object(version, ns, name)
 		return Action{Kind: kind, Version: version, NS: ns, Name: name, Obj: mustJSON(obj)}, g
 	case "update":
-		st := w.st.objs[g.rng("target", 0, len(w.st.objs)-1)]
+		st := w.st.objs[g.idx("target", len(w.st.objs))]
+		if g.pct("controller-writes-status-first", 75) {
+			// the controller has written a status since the last request
+			pa := Action{Kind: "phase", NS: st.NS, Name: st.Name, Phase: pick(g, "phase", phases)}
+			w.c.Actions = append(w.c.Actions, pa)
+			w.exec(pa)
+			vlib.Class(w.chk, "action:phase")
+		}
 		old := viewAs(st.Tree, version)
 		var obj J
 		if dig(old, "spec", "strategy", "canary") == nil && dig(old, "spec", "strategy", "blueGreen") == nil || g.pct("fresh-object", 30) {
@@ -543,10 +628,10 @@ func (w *world) genAction(t *rapid.T, alphaShare int) (Action, *G) {
 		}
 		return Action{Kind: kind, Version: version, NS: st.NS, Name: st.Name, Obj: mustJSON(obj)}, g
 	case "phase":
-		st := w.st.objs[g.rng("target", 0, len(w.st.objs)-1)]
+		st := w.st.objs[g.idx("target", len(w.st.objs))]
 		return Action{Kind: kind, NS: st.NS, Name: st.Name, Phase: pick(g, "phase", phases)}, g
 	default:
-		st := w.st.objs[g.rng("target", 0, len(w.st.objs)-1)]
+		st := w.st.objs[g.idx("target", len(w.st.objs))]
 		return Action{Kind: "delete", NS: st.NS, Name: st.Name}, g
 	}
 }
@@ -609,10 +694,14 @@ func (w *world) record(a Action, g *G, out outcome) {
 func history(t *rapid.T, chk string, alphaShare int) {
 	c := &Case{Check: chk}
 	w := newWorld(t, chk, c)
-	n := rapid.IntRange(4, 14).Draw(t, "len")
+	n := rapid.IntRange(4, 16).Draw(t, "len")
 	for i := 0; i < n; i++ {
 		a, g := w.genAction(t, alphaShare)
 		a.Cls = g.cls
+		if sig := w.knownClass(a); sig != "" && excluded(sig) {
+			vlib.Excluded(chk, sig) // steered away: the request is not sent
+			continue
+		}
 		c.Actions = append(c.Actions, a)
 		out := w.exec(a)
 		w.record(a, g, out)
